@@ -800,7 +800,8 @@ clone_attr_path(struct attr_dict *dict, struct attr_data *orig)
 static void
 instantiate_path(struct attr_data *attr)
 {
-	while (!attr_isset(attr)) {
+	/* The root directory has no parent. */
+	while (attr && !attr_isset(attr)) {
 		attr->flags.isset = 1;
 		if (!attr->parent)
 			break;
